@@ -4,6 +4,14 @@ import json, os, subprocess
 V = os.path.dirname(os.path.dirname(os.path.abspath(__file__)))
 
 CHECKS = {
+ "C15": dict(cat="model_checking", ref="§6 C15",
+   technique="timed TLA+ spec Keepalive.tla (ticks of T/4, Go ticker semantics, pong delay classes around the timeout, broker pings) model-checked by TLC; model scripts restricted to delays away from the bound replayed on the real iscp connection with recorder timestamps; traces judged by the TLA+ monitor MonC15",
+   text="Design: DetectWithinBound, DetectAfterSilence, NoSpuriousClose, NoEarlyClose, PongEchoesId, PingPacing, RecoveryImmediate (+ liveness RecoveryFollows) for interval/timeout ratios from I<T to I=3T; the exact boundary (pong at T-1 tick, T, T+1 tick) is explored by the model only. Code: silence from the k-th ping, delayed pongs (0, T/2, 3T, never), live windows of 10 intervals with concurrent traffic, broker pings with colliding ids, announcement of whole-second values (truncation) incl. reconnect.",
+   note="Real time: slack 250 ms + 50 %; a SpuriousClose verdict is suppressed when the stall detector of the harness reports a scheduling stall around it; no lower bounds on detection time are asserted."),
+ "C16": dict(cat="model_checking", ref="§6 C16",
+   technique="implementation-shaped TLA+ spec E2ECall.tla (call-id generator, ack/reply waiter maps, inboxes, dispatcher loops, three caller kinds) model-checked by TLC; environment projections and a fixed core family replayed on the real connection; traces judged by the TLA+ monitor MonC16",
+   text="Design: CallIdsFresh, AckToOwnerOnly, ReplyToOwnerOnly, InboxOnceInOrder, NegativeAckOnlyThatCaller, DeliverNonBlocking for 3 concurrent callers with acks/replies in any order, duplicates, unknown ids, negative acks, reconnect between call and ack. Code: all 6 ack orders and reply-before-ack orders for 3 callers, duplicate/unknown/negative acks, 8 concurrent callers, full reply inbox, reconnect; the monitor checks call-id uniqueness, per-caller ack/ reply attribution with payload checksums, inbox order and error isolation.",
+   note="More than 1024 undelivered inbox items are outside the judged obligations; quick configurations use SYMMETRY and an eager-registration reduction that is sound because call ids are fresh (the thorough configuration explores every interleaving)."),
  "C07": dict(cat="model_checking", ref="§6 C07",
    technique="(a) TLA+ component spec SentStorage.tla model-checked by TLC (Frame as invariant and action property) and every maximal operation sequence replayed lock-step on both real stores (MonC07a); (b) relational TLA+ monitor MonC07 over paired runs on the real connection: stream P alone vs interleaved with another stream Q, with and without a link failure",
    text="(a) all Store/Remove/List/Clear sequences to depth 4-5 on 2-3 streams: an operation on one stream leaves List of every other stream unchanged, results and lists equal the model. (b) P in {reliable upstream, unreliable upstream, downstream} x Q in {upstreams of every QoS, same data ids with reordered acks, closed before the cut, resume refused, downstream}: P's chunks, retransmissions, API returns, hook reports, close totals, resume/closed notifications, read results and acknowledgements are equal in both runs; nothing addressed to Q's alias shows up at P.",
